@@ -298,6 +298,8 @@ def periodic_binary64_tie(ctx):
         if not (abs(x - lo) < w and w > 0):
             continue
         nsname = ctx.rng.choice(["numpy", "numpy", "torch", "jax"])
+        if nsname == "jax" and 0 < abs(x - lo) < 2.3e-308:
+            nsname = "numpy"      # XLA's CPU backend flushes subnormal numbers to zero; the model is plain IEEE binary64 (numpy, torch)
         xp, dt = NS[nsname], nsutil.native_dtype(nsname, "float64")
         T = PeriodicTransform(np.asarray([lo]), np.asarray([up]), xp=xp, dtype=dt)
         y, _ = T.forward(xp.asarray(np.asarray([[x]]), dtype=dt))
